@@ -81,6 +81,11 @@ impl<T> Receiver<T> {
 
 impl<T> Drop for Receiver<T> {
     fn drop(&mut self) {
+        // The model is failing, there is no execution to receive in.
+        if rt::panicking_without_execution() {
+            return;
+        }
+
         // Drain the channel.
         while !self.object.is_empty() {
             self.recv().unwrap();
